@@ -112,10 +112,33 @@ func VH_C08_catchment() {
 
 // VH_C08_push: under --dist-push k each of up/down/side holds exactly the targets at that bin's k smallest
 // occurring distances, nearest first; same holds every identical target. Map iteration orders are explored.
+// vPushMenuTargets: query CCCA on reference AAAA, so that the up bin has three occurring distances (1, 2, 3)
+// and several targets per distance.
+var vPushMenu = []string{"AAAA", "CAAA", "CCAA", "ACAA", "CCCA", "CCCC", "CCAC"}
+
+func vPushMenuTargets(T int) (updownLine, []updownLine) {
+	txts := make([][]byte, T+1)
+	ids := make([]string, T+1)
+	txts[0] = []byte("CCCA")
+	ids[0] = "query"
+	for i := 0; i < T; i++ {
+		txts[i+1] = []byte(vPushMenu[vChoice(vName("menu", i), len(vPushMenu))])
+		ids[i+1] = "t" + vItoa(i)
+	}
+	ls := vLines([]byte("AAAA"), txts, ids)
+	return ls[0], ls[1:]
+}
+
 func VH_C08_push() {
 	T := vParam("T")
-	vMapOrder(true)
-	q, targets := vMenuTargets(T)
+	vMapOrder(vParam("MAPORDER") == 1)
+	var q updownLine
+	var targets []updownLine
+	if vParam("MENU") == 1 {
+		q, targets = vPushMenuTargets(T)
+	} else {
+		q, targets = vMenuTargets(T)
+	}
 	k := 1 + vChoice("k", 2)
 	thresh := float32(0.5)
 	cIn := make(chan updownLine, T)
@@ -136,7 +159,7 @@ func VH_C08_push() {
 	for b := 0; b < 4; b++ {
 		// the k smallest occurring distances of this bin
 		var occurring []int
-		for d := 0; d <= 3; d++ {
+		for d := 0; d <= 4; d++ {
 			for i := 0; i < T; i++ {
 				if dist[i] == d && dir[i] == b {
 					occurring = append(occurring, d)
@@ -151,7 +174,7 @@ func VH_C08_push() {
 			limit = occurring[len(occurring)-1]
 		}
 		var want []int
-		for d := 0; d <= 3; d++ {
+		for d := 0; d <= 4; d++ {
 			for a := 0; a <= 3; a++ {
 				for i := 0; i < T; i++ {
 					if dir[i] == b && dist[i] == d && targets[i].ambCount == a && dist[i] <= limit {
